@@ -32,7 +32,10 @@ EXPLANATION = (
     "symbolic context or to the BDD-based restriction. (I) one meaning for free inputs: a variable without update "
     "function is an input that keeps its value for the Petri net (no transition) but an unknown *constant* for AEON's "
     "symbolic graph (it may flip during reachability); cleanup_network, through which every network of a diagram passes, "
-    "therefore gives every such variable the identity function, on the object it returns, on every path. NOT decided and not claimed: isomorphism of the diagrams of "
+    "therefore gives every such variable the identity function, on the object it returns, on every path. (K) the keys of a "
+    "diagram's node index encode variable indices: every lookup in or store into X.node_indices uses a key computed by "
+    "space_unique_key(space, X.network) for the same X, so that two diagrams of one network written in different variable "
+    "orders are compared through their spaces (find_node), never through each other's keys. NOT decided and not claimed: isomorphism of the diagrams of "
     "renamed / reordered / re-encoded / re-formatted networks (these compare run-time results of transformed inputs)."
 )
 ASSUMPTIONS = [
@@ -48,6 +51,8 @@ def run(ck: Check) -> None:
     o(ck)
     s_(ck)
     i_(ck)
+    k(ck)
+    ck.floor("K", 4)
     ck.floor("I", 3)
     ck.floor("S", 3)
     ck.floor("R", 1)
@@ -424,6 +429,53 @@ def i_(ck: Check) -> None:
                       f"parameter semantics)", key=f"network of the diagram in {g.f.name}")
     if n_ == 0:
         raise AnalysisError("anchor vanished: assignment of self.network")
+
+
+def k(ck: Check) -> None:
+    """Keys of a diagram's node index are computed from variable indices (space_unique_key(space, network)): a key means
+    something only together with the network it was computed for.  Every lookup in / store into `X.node_indices` uses a
+    key computed with `X.network`; keys taken from one diagram's index are never looked up in another's."""
+    prog = ck.prog
+    n_sites = 0
+    for fm in prog.models():
+        f = fm.f
+        for n in own_walk(f.node):
+            recv = key = None
+            if isinstance(n, ast.Subscript) and isinstance(n.value, ast.Attribute) and n.value.attr == "node_indices":
+                recv, key = n.value.value, n.slice
+            elif isinstance(n, ast.Compare) and len(n.ops) == 1 and isinstance(n.ops[0], (ast.In, ast.NotIn)) \
+                    and isinstance(n.comparators[0], ast.Attribute) and n.comparators[0].attr == "node_indices":
+                recv, key = n.comparators[0].value, n.left
+            elif isinstance(n, ast.Call) and isinstance(n.func, ast.Attribute) and n.func.attr in ("get", "pop", "setdefault", "__getitem__", "__contains__") \
+                    and isinstance(n.func.value, ast.Attribute) and n.func.value.attr == "node_indices" and n.args:
+                recv, key = n.func.value.value, n.args[0]
+            elif isinstance(n, ast.Assign) and len(n.targets) == 1 and isinstance(n.targets[0], ast.Attribute) \
+                    and n.targets[0].attr == "node_indices" and isinstance(n.value, ast.DictComp):
+                recv, key = n.targets[0].value, n.value.key
+            if recv is None:
+                continue
+            n_sites += 1
+            try:
+                at = fm.cfgn(n)
+                kv = fm.deref(key, at) if isinstance(key, ast.Name) else key
+            except AnalysisError:
+                kv = key
+            if isinstance(kv, ast.Name):
+                # (inside an assert, or a parameter) the only binding of the name in the function
+                binds = [a_ for a_ in own_walk(f.node) if isinstance(a_, ast.Assign) and len(a_.targets) == 1
+                         and isinstance(a_.targets[0], ast.Name) and a_.targets[0].id == kv.id]
+                stores = sum(1 for y_ in own_walk(f.node) if isinstance(y_, ast.Name) and y_.id == kv.id and isinstance(y_.ctx, ast.Store))
+                if len(binds) == 1 and stores == 1 and kv.id not in f.params():
+                    kv = binds[0].value
+            ok = isinstance(kv, ast.Call) and callee_name(kv) == "space_unique_key" and len(kv.args) == 2 \
+                and text(kv.args[1]) == f"{text(recv)}.network"
+            ck.ob("K", fm, f.stmt_of(n), ok, f"key of `{text(recv)}.node_indices` computed with `{text(recv)}.network`" if ok else
+                  f"`{text(recv)}.node_indices` is used with the key `{text(kv)[:60]}`, which is not computed by "
+                  f"space_unique_key(<space>, {text(recv)}.network): the keys encode variable indices, so a key of another "
+                  f"diagram (same network written in another variable order) names a different space or none",
+                  key=f"{f.qualname}: {text(n)[:50]}")
+    if n_sites == 0:
+        raise AnalysisError("anchor vanished: no use of node_indices")
 
 
 def o(ck: Check) -> None:
